@@ -177,6 +177,7 @@ def shape_counters(acc, cells):
 # standard partitioned pools (shared by the Engine-A property modules)
 
 PARTS = 8
+READ_VARIANTS = 2      # per task: so many of the deepest states are probed a second time, rebuilt with interleaved queries
 
 
 def std_tasks(plan, parts=PARTS):
@@ -243,6 +244,9 @@ def std_pool(task, seed, acc=None):
         seed_hist = dup_hist(task['layout'], text, seed)
     elif task['layout'] in ('rs1', 'rs2'):
         seed_hist = restart_hist(task['layout'], text, seed)
+    elif task['layout'] in ('rs1s', 'rs2s', 'rs1c', 'rs2c'):
+        # a piece / a copy of a value with a restart point (what the piece inherits must behave like the original)
+        seed_hist = restart_hist(task['layout'][:3], text + 'z', seed) + [['slice', 0, -1] if task['layout'][3] == 's' else ['copy']]
     elif task['layout'] == 'esc':
         # a base text that itself contains a complete SGR sequence (assign_str takes its text verbatim) and one that a
         # concatenation completes: characters of the text, never to be parsed again
@@ -269,6 +273,29 @@ def std_pool(task, seed, acc=None):
         pool.items = [(h, v) for (h, v) in pool.items if model.canon_hash(v) % parts == part]
     elif part != 0:
         pool.items = [(h, v) for (h, v) in pool.items if len(h) > base_len]
+    # A few of the deepest states once more, built with a full round of queries (operation 'read') after every step: what
+    # an implementation remembers from a query is then in place when the later steps and the probes run.  Queries are
+    # transparent on a correct implementation (C09 checks that in general); here every property's own probes get the chance
+    # to see a remembered answer that a mutator forgot to drop.
+    if task['layout'] != 'long' and pool.items:
+        extra = []
+        for h, _v in sorted(pool.items, key=lambda x: -len(x[0]))[:READ_VARIANTS]:
+            if len(h) <= base_len:
+                continue
+            hr = list(h[:base_len]) + [['read']]
+            for op in h[base_len:]:
+                hr += [op, ['read']]
+            try:
+                vr = build(hr, reads=False)
+                if isinstance(vr, type(_v)) and model.healthy(vr) is None:
+                    extra.append((hr, vr))
+            except env.HarnessError:
+                raise
+            except Exception:  # noqa
+                pass            # (a query that raises on a value built by successful operations is C09's finding)
+        pool.items = list(pool.items) + extra
+        if acc is not None:
+            acc.counters['states_rebuilt_with_reads'] += len(extra)
     if acc is not None:
         acc.counters['quarantined'] += pool.quarantined
         acc.counters['generator_transitions'] += pool.transitions
